@@ -23,7 +23,7 @@ import (
 //   end
 //
 // operand:  v:<id>/<tf> | p:<i>/<tf> | f:<i>/<tf> | c:<ckind>:<hexText>:<hexTypeSan>:<small16>:<fits64>:<int64>:<constPtrId>/<tf>
-//           | g:<hexPkgPath>:<hexName>:<hexTypeSan>/<tf> | b:<hexName>/<tf> | fn:<hexName>:<hexSigSan>/<tf> | n
+//           | g:<hexPkgPath>:<hexName>:<hexTypeSan>/<tf> | b:<hexName>/<tf> | fn:<hexQualifiedName>:<hexSigSan>:<self|ext|local.<hexSuffix>>/<tf> | n
 // tf (type flags of the operand's / value's Go type): 1 integer, 2 string, 4 float, 8 complex, 16 map-or-chan
 // refs: <id>:<Kind> of every referrer instruction (DebugRef included, as go/ssa reports them)
 
@@ -96,6 +96,7 @@ func typeFlags(t types.Type) int {
 type ssaExporter struct {
 	ids      map[ssa.Instruction]int
 	constIDs map[*ssa.Const]int // classifyIV compares start values by POINTER identity of *ssa.Const
+	cur      *ssa.Function
 	sb       strings.Builder
 }
 
@@ -160,7 +161,16 @@ func (e *ssaExporter) operand(v ssa.Value) string {
 	case *ssa.Builtin:
 		return fmt.Sprintf("b:%s/%d", hx(x.Name()), tf)
 	case *ssa.Function:
-		return fmt.Sprintf("fn:%s:%s/%d", hx(x.Name()), hx(sanitizeTypeH(x.Signature)), tf)
+		// raw facts only: the qualified name and how x relates to the function being exported
+		// (itself / a member of the same closure tree / anything else); the MODEL decides how a
+		// reference is rendered
+		rel := "ext"
+		if x == e.cur {
+			rel = "self"
+		} else if e.cur != nil && outermost(x) == outermost(e.cur) {
+			rel = "local." + hx(strings.TrimPrefix(x.Name(), outermost(x).Name()))
+		}
+		return fmt.Sprintf("fn:%s:%s:%s/%d", hx(x.RelString(nil)), hx(sanitizeTypeH(x.Signature)), rel, tf)
 	}
 	if in, ok := v.(ssa.Instruction); ok {
 		if id, ok := e.ids[in]; ok {
@@ -168,6 +178,13 @@ func (e *ssaExporter) operand(v ssa.Value) string {
 		}
 	}
 	return "n"
+}
+
+func outermost(f *ssa.Function) *ssa.Function {
+	for f.Parent() != nil {
+		f = f.Parent()
+	}
+	return f
 }
 
 func hxd(s string) string {
@@ -179,7 +196,7 @@ func hxd(s string) string {
 
 // ExportFunction renders fn in the MiniSSA line protocol (without the trailing canon request).
 func ExportFunction(fn *ssa.Function) []string {
-	e := &ssaExporter{ids: map[ssa.Instruction]int{}, constIDs: map[*ssa.Const]int{}}
+	e := &ssaExporter{ids: map[ssa.Instruction]int{}, constIDs: map[*ssa.Const]int{}, cur: fn}
 	id := 0
 	for _, b := range fn.Blocks {
 		for _, in := range b.Instrs {
